@@ -29,7 +29,7 @@ ENGINES = [
 # id -> dict(level, design, text, note, technique)
 CHECKS = {
     "C01": dict(level="model_checking", design="4/C01",
-                text="Every batch of the stated small-scope domain (all fit/no-fit boundary lengths x message types x batch sizes 1..3 x 21 small (min,max) contexts and batch sizes 1..2 x 9 mid-size/realistic contexts, each also on an encoder that already made one of ten kinds of earlier call (seven completed ones, two aborted by an exception from the packet source, one with an empty batch), typed prototypes as singles/pairs/triples x 5 contexts x 3 encode overloads, header-field sweeps, 65535-byte extremes alone, after a type change and after a packet of the same type, frames larger than the largest message) is encoded by a real Encoder and decoded by a fresh real Decoder (frames handed over at addresses of varying alignment); also very long batches (70000 packets in one call), identical neighbouring packets, segmentation bits / segment-type attribute on single packets at every position, payloads re-typed in place after setPayload; the decoded packets are compared field by field with the inputs by harness code. Exhaustive within the bounds, no sampling.",
+                text="Every batch of the stated small-scope domain (all fit/no-fit boundary lengths x message types x batch sizes 1..3 x 21 small (min,max) contexts and batch sizes 1..2 x 9 mid-size/realistic contexts, each also on an encoder that already made one of ten kinds of earlier call (seven completed ones, two aborted by an exception from the packet source, one with an empty batch), typed prototypes as singles/pairs/triples x 5 contexts x 3 encode overloads, header-field sweeps, 65535-byte extremes alone, after a type change and after a packet of the same type, frames larger than the largest message) is encoded by a real Encoder and decoded by a fresh real Decoder (frames handed over at addresses of varying alignment); also very long batches (70000 packets in one call), identical neighbouring packets, segmentation bits / segment-type attribute on single packets at every position, payloads re-typed or replaced (other length) in place after setPayload; the decoded packets are compared field by field with the inputs by harness code. Exhaustive within the bounds, no sampling.",
                 note="Bounds: lengths around each boundary, one content pattern per packet; compares through public getters only; oracle code shares nothing with the library.",
                 technique="bounded exhaustive enumeration of executions of the real encoder+decoder (small-scope), independent field-by-field oracle"),
     "C07": dict(level="model_checking", design="4/C07",
@@ -57,7 +57,7 @@ CHECKS = {
                 note="'Random beyond the bound' of the quantifier text is deliberately not done (sampling is a different family); the completed bound is reported.",
                 technique="exhaustive fault-sequence enumeration up to a bound on the real decoder"),
     "C17": dict(level="model_checking", design="4/C17",
-                text="103-symbol state-relative frame alphabet over 4 endpoints (incl. zero-length last segments with a plausible-looking trail, header-plus-zero-bytes frames, truncated TECMP-like buffers, continuation segments that fit a default-constructed reassembly entry, an intermediary segment repeated verbatim, a rejected typed payload followed by a first segment in one frame, TECMP frames whose device id equals an endpoint's, well-formed status messages whose content changes: uptime high / low): unmerged tree of copied real Decoders (depth 3 quick / 4 thorough; depth 5 / 6 over a sharp 24-symbol sub-alphabet) and BFS (depth 8 / 10) merged on (model state, dump of the decoder's pending table); after every transition the set of endpoints with pending data must equal the set of open messages and buffered bytes must not exceed header + declared segment bytes received; plus the fan-out and long-gap rounds of C05 and messages whose segments add up to more than 65535 bytes (15 size lists x 4 endpoints: the last segment releases the buffer all the same).",
+                text="104-symbol state-relative frame alphabet over 4 endpoints (incl. zero-length last segments with a plausible-looking trail, header-plus-zero-bytes frames, truncated TECMP-like buffers, continuation segments that fit a default-constructed reassembly entry, an intermediary segment repeated verbatim, a rejected typed payload followed by a first segment in one frame, TECMP frames whose device id equals an endpoint's, a stray last segment that continues ANOTHER endpoint's open message by the numbers, well-formed status messages whose content changes: uptime high / low): unmerged tree of copied real Decoders (depth 3 quick / 4 thorough; depth 5 / 6 over a sharp 24-symbol sub-alphabet) and BFS (depth 8 / 10) merged on (model state, dump of the decoder's pending table); after every transition the set of endpoints with pending data must equal the set of open messages and buffered bytes must not exceed header + declared segment bytes received; plus the fan-out and long-gap rounds of C05 and messages whose segments add up to more than 65535 bytes (15 size lists x 4 endpoints: the last segment releases the buffer all the same).",
                 note="Uses the guarded read-only hook Decoder::verifPending(); a header-only frame is modelled as carrying nothing.",
                 technique="explicit-state model checking (tree + BFS with state merging) of the real decoder against a reference model; invariant checked in every state"),
     "C18": dict(level="model_checking", design="4/C18",
@@ -89,7 +89,7 @@ CHECKS = {
                 note="The order of the two TECMP temperature bytes could not be cross-checked and is listed as an assumption in the evidence.",
                 technique="bounded exhaustive enumeration class x field x value against an independent layout table"),
     "C13": dict(level="model_checking", design="4/C13",
-                text="Every builder (CAN/CAN-FD all lengths 0..255 x 4 header variants incl. the RTR/RRS bit set first, LIN all lengths 0..255, Ethernet/analog boundary lengths to 65529, capture-module 5^4 string combinations (empty strings also as null string_views) x vendor lengths and each section alone at 17 boundary lengths, interface stream-id counts x vendor lengths) after each kind of prior state (earlier setData with shorter / longer / same-length data or with the same TOTAL size and moved section boundaries, or an object constructed from a raw image with trailing bytes; each with and without every getter being called between the two builder calls; stand-alone objects and objects held inside a Packet; the LIN builder also with the correct classic / enhanced checksum of the data held before; the builder call under test aborted by the failure of its n-th allocation and repeated); checked: getters, preserved header fields, independent wire image incl. NUL termination and even padding, DLC table, own validity check, real Decoder, raw bytes equal to those of a fresh object with the same final content.",
+                text="Every builder (CAN/CAN-FD all lengths 0..255 x 4 header variants incl. the RTR/RRS bit set first, LIN all lengths 0..255, Ethernet/analog boundary lengths to 65529, capture-module 5^4 string combinations (empty strings also as null string_views) x vendor lengths and each section alone at 17 boundary lengths, interface stream-id counts x vendor lengths) after each kind of prior state (earlier setData with shorter / longer / same-length data or with the same TOTAL size and moved section boundaries, or an object constructed from a raw image with trailing bytes; each with and without every getter being called between the two builder calls; stand-alone objects and objects held inside a Packet; the LIN builder also with the correct classic / enhanced checksum of the data held before; the builder call under test aborted by the failure of its n-th allocation and repeated; builder objects that were moved from and are used again); checked: getters, preserved header fields, independent wire image incl. NUL termination and even padding, DLC table, own validity check, real Decoder, raw bytes equal to those of a fresh object with the same final content.",
                 note="DLC is only constrained for representable lengths.",
                 technique="bounded exhaustive enumeration of builder inputs x prior object contents with independent layout oracle and fresh-object differential"),
     "C14": dict(level="model_checking", design="4/C14",
